@@ -18,6 +18,20 @@ def with_cr(text):
     return text.replace(CR, '&#13;')
 
 
+def default_ns(text):
+    """the elements of the namespace http://vendor/default written the way vendors write them: with a default namespace
+    declaration (xmlns="...") instead of a prefix"""
+    import re
+    m = re.search(r'xmlns:(ns\d+)="http://vendor/default"', text)
+    if not m:
+        return text
+    pfx = m.group(1)
+    # ElementTree declares every prefix on the root; the declaration goes on the vendor's own top element instead
+    text = text.replace(' xmlns:%s="http://vendor/default"' % pfx, '')
+    text = text.replace('<%s:clip' % pfx, '<clip xmlns="http://vendor/default"')
+    return text.replace('<%s:' % pfx, '<').replace('</%s:' % pfx, '</')
+
+
 def with_refs(rng, text):
     """the same document with its non-ASCII characters written as numeric character references (half of the time): what
     reaches the tree that way never passed through any filter applied to the input text"""
@@ -53,6 +67,9 @@ def histories(tier, rng):
             c[0] += 1
             return 'K%d_%d' % (h, c[0])
         cr = (h % 10 == 9)
+        # vendor XML in namespaces of its own (prefixed and default) in a quarter of the histories: the model codec has no
+        # namespaces, so those states are judged by the round trip through the real serialiser and parser alone
+        ns = (h % 4 == 2)
         for j in range(rng.randrange(2, 9)):
             cs, ci = gens.state_ids(state)
             r = rng.random()
@@ -61,13 +78,14 @@ def histories(tier, rng):
             elif r < 0.45:
                 d = gens.random_item_message(rng, cs, ci, 20 + j, fresh)
             elif r < 0.6:
-                d = story_append(20 + j, [rich_story(rng, fresh(), 2)])
+                d = story_append(20 + j, [rich_story(rng, fresh(), 2, ns)])
             elif r < 0.72:
-                d = ro_replace(20 + j, [rich_story(rng, fresh(), 2) for _ in range(rng.randrange(0, 3))], slug=rng.choice(SPECIAL) or 'x')
+                d = ro_replace(20 + j, [rich_story(rng, fresh(), 2, ns) for _ in range(rng.randrange(0, 3))], slug=rng.choice(SPECIAL) or 'x')
             elif r < 0.82:
                 d = metadata_replace(20 + j, [E('roSlug', text=rng.choice(SPECIAL) or 's'), E('roChannel', text=rng.choice(SPECIAL) or None, kind=rng.choice(SPECIAL))])
             elif r < 0.92 and cs:
-                d = story_send(20 + j, rng.choice(cs), body=[p(rng.choice(SPECIAL)), E('storyItem', E('itemID', text='q%d' % j), E('itemSlug', text=rng.choice(SPECIAL)))],
+                d = story_send(20 + j, rng.choice(cs), body=[p(rng.choice(SPECIAL)), E('storyItem', E('itemID', text='q%d' % j), E('itemSlug', text=rng.choice(SPECIAL)),
+                                                                                  *([E('{http://vendor/default}clip', E('{http://vendor/default}id', text='c1'), rate='25')] if ns else []))],
                                pre=[E('storySlug', text=(rng.choice(SPECIAL) + (CR if cr else '')))])
                 if rng.random() < 0.5:
                     d[3].find('storyBody').set('Read1stMEMasBody', 'true')
@@ -80,7 +98,7 @@ def histories(tier, rng):
                 d = gens.make_ro(['X'], message_id=20 + j)
             if rng.random() < 0.4:
                 gens.whitespace_mix(rng, d)
-            t = with_refs(rng, gens.vary_envelope(rng, with_cr(to_text(d))))
+            t = with_refs(rng, gens.vary_envelope(rng, with_cr(default_ns(to_text(d)))))
             if rng.random() < 0.1:
                 t = gens.mutate_doc(rng, t, state, n=1)
             msgs.append(t)
@@ -100,6 +118,12 @@ def safe(fn):
         return fn()
     except Exception as e:
         return ('raises', type(e).__name__)
+
+
+def has_ns(tree):
+    if tree[0].startswith('{') or any(k.startswith('{') for k in dict(tree[1])):
+        return True
+    return any(has_ns(k) for k in tree[4])
 
 
 def has_cr(tree):
@@ -139,7 +163,12 @@ class Check:
         n = 0
         ser_lines, ser_want, parse_lines, parse_want, where = [], [], [], [], []
         for ci, c in enumerate(cases):
-            ro = RunningOrder.from_string(c['ro'])
+            try:
+                ro = RunningOrder.from_string(c['ro'])
+            except Exception as e:
+                vio.append({'what': 'a well-formed running order document cannot be read: %s' % impl.ename(e), 'case': {'kind': 'hist', 'ro': c['ro'], 'msgs': []},
+                            'cr': False, 'impl': impl.ename(e), 'expected': 'a RunningOrder'})
+                continue
             orig_mid = safe(lambda: ro.message_id)
             orig_roid = safe(lambda: ro.ro_id)
             had_replace = False
@@ -194,7 +223,7 @@ class Check:
                     vio.append({'what': what, 'case': case, 'cr': cr, 'impl': text[:300], 'expected': 'identical read-back'})
                     break
                 # correspondence with the model codec (only where the theorem applies: no U+000D)
-                if not cr:
+                if not cr and not has_ns(tree):
                     ser_lines.append('ser ' + X.tree_line(tree))
                     ser_want.append(text)
                     parse_lines.append('parse ' + X.s_tok(text))
